@@ -125,10 +125,10 @@ func (h *history) tamper(md *mMeta) {
 		}
 		req.ACSEndpoint.Location = "https://attacker.example.net/collect"
 		req.ACSEndpoint.Binding = saml.HTTPPostBinding
+		// (fields of the copies are assigned; elements of the slices the descriptor copy shares with the
+		// stored descriptor are not written — the copy is shallow on the unchanged tree as well)
 		req.SPSSODescriptor.KeyDescriptors = nil
-		if len(req.SPSSODescriptor.AssertionConsumerServices) > 0 {
-			req.SPSSODescriptor.AssertionConsumerServices[0].Location = "https://attacker.example.net/first"
-		}
+		req.SPSSODescriptor.AssertionConsumerServices = nil
 	})
 	h.c.Count("history/tamper-with-request-copies")
 }
